@@ -44,6 +44,7 @@ PROPS["C18"] = dict(
                  "(counted under documented_unsupported:*); an api message without content and without error does not",
                  "an IPv4-mapped IPv6 next hop is the wire form of an IPv4 next hop under an IPv6 AFI (the API prints it as IPv4 on purpose): only unmapped next hops are generated; "
                  "String() of the Prefix-SID attribute is not compared (two Go types render the same L3-service TLV)",
+                 "the order of the TLVs inside the BGP-LS attribute is not significant (RFC 7752 3.3; the API groups them by kind): the same TLV multiset in another order is accepted",
                  "Len() is compared with the serialised size only when the original value was itself consistent (Len reads cached header fields)",
                  "string/bytes fields are emptied only where the field is optional by itself (EVPN MAC/IP address, BGP-LS optional TLVs, FQDN, opaque values); lists a TLV consists of "
                  "(End.X SIDs) are not cleared; an all-zero address family is not generated",
